@@ -7,7 +7,6 @@ import (
 	"context"
 	"fmt"
 	"sync"
-	"time"
 
 	"github.com/nspcc-dev/neo-go/pkg/core/mempoolevent"
 	"github.com/nspcc-dev/neo-go/pkg/core/state"
@@ -207,5 +206,3 @@ func (r *Requester) Capture(f func() error) (*payload.P2PNotaryRequest, error) {
 	}
 	return &payload.P2PNotaryRequest{MainTransaction: s[0].Tx, FallbackTransaction: s[0].Fallback}, nil
 }
-
-var _ = time.Second
